@@ -328,6 +328,9 @@ func tokenExprUnaryToProtoExprUnary(op datalog.UnaryOp) (*pb.OpUnary, error) {
 
 func protoExprUnaryToTokenExprUnary(op *pb.OpUnary) (datalog.UnaryOpFunc, error) {
 	var unaryOp datalog.UnaryOpFunc
+	if op == nil || op.Kind == nil {
+		return nil, errors.New("biscuit: missing proto OpUnary kind")
+	}
 	switch *op.Kind {
 	case pb.OpUnary_Negate:
 		unaryOp = datalog.Negate{}
@@ -386,6 +389,9 @@ func tokenExprBinaryToProtoExprBinary(op datalog.BinaryOp) (*pb.OpBinary, error)
 
 func protoExprBinaryToTokenExprBinary(op *pb.OpBinary) (datalog.BinaryOpFunc, error) {
 	var binaryOp datalog.BinaryOpFunc
+	if op == nil || op.Kind == nil {
+		return nil, errors.New("biscuit: missing proto OpBinary kind")
+	}
 	switch *op.Kind {
 	case pb.OpBinary_LessThan:
 		binaryOp = datalog.LessThan{}
